@@ -69,6 +69,11 @@ def run(ctx):
     r144(ctx)
     r146(ctx)
     r147_uniform_bounds(ctx)
+    # "drawing depends only on the distribution's parameters and its own stream": the stream's generator is its own, also for a stream that
+    # was copied together with its distribution (shared rule with C12)
+    from . import c12
+    for sc_ in ctx.prog.subclasses('StreamInterface'):
+        c12.r121_private_generator(ctx, sc_)
     from ..statrules import shared_class_state
     shared_class_state(ctx, 'R14.8', sorted(c for c, ci in ctx.prog.classes.items() if ci.module.name == 'distributions'),
                        'what one distribution instance caches (a spare gaussian, a helper distribution) is consumed by every other instance: draws no longer depend '
